@@ -248,10 +248,10 @@ def run(ctx):
             violations.append(_obs_violation(obs[b["case"]], b, ctx.seed))
     cv, _ = vres[0]
     cbad = sorted(b["case"] for b in cv["bad"])
+    canary_cases = sorted({c_rev["case"], c_ep["case"], c_ep2["case"]})
     # (demanded only when every genuine observation was accepted, for the same reason as above)
-    if rand_bad == 0 and cbad != sorted({c_rev["case"], c_ep["case"], c_ep2["case"]}):
-        raise InfraError("binding canary: corrupted observations %s, TraceRevEpoch rejected %s"
-                         % (sorted({c_rev["case"], c_ep["case"], c_ep2["case"]}), cbad))
+    if rand_bad == 0 and cbad != canary_cases:
+        raise InfraError("binding canary: corrupted observations %s, TraceRevEpoch rejected %s" % (canary_cases, cbad))
     if checked != nobs or nobs != nrand:
         raise InfraError("I->T: %d observations requested, %d written, %d validated" % (nrand, nobs, checked))
     kinds = {}
@@ -266,14 +266,16 @@ def run(ctx):
 
     # ---- evidence
     samples = []
-    for o in obs.values():
-        if o["kind"] == "epoch" and o["got"]["valid"] and len(o["e"]["r"]["l"]) > 2 and len(samples) < 2:
-            samples.append({"epoch": o["text"], "other": o["otext"], "Validate": "ok", "String": _txt(o["got"]["str"]),
-                            "CanRead(other)": o["got"]["canread"], "other.CanRead(epoch)": o["got"]["canread_rev"]})
-        if o["kind"] == "revstr" and len([s for s in samples if "ParseRevision" in s]) < 2:
-            samples.append({"ParseRevision": o["text"], "result": o["got"]["rev"]})
-        if o["kind"] == "short" and o["got"]["e"]["ok"] and len([s for s in samples if "short" in s]) < 1:
-            samples.append({"short": o["text"], "epoch": {"read": o["got"]["e"]["r"], "write": o["got"]["e"]["w"]}})
+    ep_s = [o for o in obs.values() if o["kind"] == "epoch" and o["got"]["valid"] and len(o["e"]["r"]["l"]) > 2][:2]
+    for o in ep_s:
+        samples.append({"epoch": o["text"], "other": o["otext"], "Validate": "ok", "String": _txt(o["got"]["str"]),
+                        "CanRead(other)": o["got"]["canread"], "other.CanRead(epoch)": o["got"]["canread_rev"]})
+    for o in [o for o in obs.values() if o["kind"] == "epoch" and not o["got"]["valid"]][:1]:
+        samples.append({"epoch": o["text"], "Validate": "error", "json.Unmarshal(json.Marshal(epoch))": "error" if not o["got"]["rt"]["ok"] else "ok"})
+    for o in [o for o in obs.values() if o["kind"] == "revstr"][:2]:
+        samples.append({"ParseRevision": o["text"], "result": o["got"]["rev"]})
+    for o in [o for o in obs.values() if o["kind"] == "short" and o["got"]["e"]["ok"]][:1]:
+        samples.append({"short": o["text"], "epoch": {"read": o["got"]["e"]["r"], "write": o["got"]["e"]["w"]}})
     for v in violations[:3]:
         samples.append({"violation": v.key, "desc": v.desc})
 
@@ -316,9 +318,8 @@ def run(ctx):
         "tlc_constants": {"MaxLen": maxlen, "ListLen": listlen, "RevBound": 12, "StrAlphabet": STR_ALPHABET},
         "tlc_runs": {"laws_and_tables": len(jobs), "trace": len(chunks) + 1},
         "tlc_wall_s": {"laws_and_tables": round(tlc_wall, 1)},
-        "binding_canaries": ("2 corrupted table entries and 3 corrupted observations all rejected and named" if not violations else
-                             "table canary %s, observation canary %s (canaries are only demanded for stages without genuine differences)"
-                             % ("reported" if want <= ckeys else "not demanded", "rejected %s" % cbad)),
+        "binding_canaries": {"corrupted_table_entries_reported": sorted(want & ckeys), "corrupted_observations": canary_cases,
+                             "corrupted_observations_rejected": cbad},
     }
     return Result(level="exploration", coverage=cov,
                   assumptions=[
